@@ -100,7 +100,19 @@ def oracle_fit(case):
     est, y = E.build(s, X)
     rec = BatchRecorder(est, keep=True)
     mlcl = case["mlcl"]
+    seen_rows = {"bad": None}
     if mlcl is not None:
+        # under the decoration: the rows the model really trains on at each step must be those of the recorded indices
+        inner_grads = est._compute_grads
+
+        def watch(Xb, y_pred, gradient):
+            if seen_rows["bad"] is None and s["cls"] != "KernelRIM":
+                idx = list(getattr(est._batchify, "indices", []))
+                if len(idx) != len(Xb) or not np.array_equal(np.asarray(Xb), X[idx]):
+                    seen_rows["bad"] = (idx, len(Xb))
+            return inner_grads(Xb, y_pred, gradient)
+
+        est._compute_grads = watch
         try:
             add_mlcl_constraint(est, mlcl["ml"] or None, mlcl["cl"] or None, mlcl["factor"])
         except ValueError:
@@ -139,6 +151,9 @@ def oracle_fit(case):
         raise Violation(f"{label}: {steps['n']} optimiser steps, expected max_iter*ceil(n/batch_size) = {want_steps}")
     if est.n_iter_ != s["max_iter"]:
         raise Violation(f"{label}: n_iter_ = {est.n_iter_}, max_iter = {s['max_iter']}")
+    if seen_rows["bad"]:
+        raise Violation(f"{label}: decorated model: a training step worked on a batch of {seen_rows['bad'][1]} rows while the "
+                        f"recorded sample indices were {seen_rows['bad'][0]} (not the samples of that batch)")
     if steps["bad_indices"]:
         raise Violation(f"{label}: decorated model recorded batch indices {steps['bad_indices'][0]}, the batch holds "
                         f"samples {steps['bad_indices'][1]}")
